@@ -588,8 +588,19 @@ pub fn check_c17(
                     }
                 }
             }
+            Some(e) if e.b == 2 => {
+                v.push(Violation {
+                    rule: "c17.waiter_not_released".into(),
+                    detail: format!(
+                        "waiter {i} (a select! loop polling from {at} ms) never got the result: its wait_for_shutdown() future reported is_terminated() before it had completed"
+                    ),
+                });
+            }
             Some(e) => {
                 probes.push("waiter_checked");
+                if i % 2 == 1 {
+                    probes.push("fused_select_waiter_checked");
+                }
                 if e.seq < required_done_seq {
                     v.push(Violation {
                         rule: "c17.waiter_released_early".into(),
